@@ -12,10 +12,11 @@ PROPS["C16"] = {
                    "constructed true. Does not prove absence; termination is observed, not proved."),
     "level_note": ("Trusted: math/big, verifref curve arithmetic (self-tested against RFC 8032 constants), rapid. The library decoder is used to load "
                    "reference-encoded points; the library encoder to hand results to the reference predicate."),
-    "rule": ("k from: fixed points (0,1,2,L-1,L,L+1,L/2,2^255-1,..), floor(L*a/q)+e for q of 1..127 bits, sqrt(L)*m+e, convergents with one repeated partial "
+    "rule": ("k from: fixed points (0,1,2,L-1,L,L+1,L/2,2^255-1,.., the roots of k^2=-1 and k^2+k+1=0 mod L: orthogonal/hexagonal lattices), floor(L*a/q)+e for q of 1..127 bits, sqrt(L)*m+e, convergents with one repeated partial "
              "quotient (L/phi ..), convergents with small quotients then one huge quotient at a chosen depth, k = d0/d1 mod L for prescribed short "
              "vectors up to the 2^127 edge with both signs, 2^i+-1, uniform of uniform bit length, L-x, L/2+-x, the shared scalar catalogue, "
-             "and k+mL lifts; equations: A=[alpha]B+T_i, C=[a*alpha+b+delta]B+T_j with delta in {0, mL} (true) or tiny/2^i/L+-e/uniform (false). "
+             "and k+mL lifts; equations: A=[alpha]B+T_i, C=[a*alpha+b+delta]B+T_j with delta in {0, mL} (true) or tiny/2^i/L+-e/uniform (false); "
+             "one case in six uses (a,b) engineered so that |delta|*b mod L has an extreme 128-bit split (x*2^128, 2^128-1, 2^127, 0, 1, L-1). "
              "non-trivial = k structured (not plain uniform) or unreduced, or d0/d1 negative, or A/C carrying torsion; primitive-operation cases all count; "
              "distinct = FNV-64 of the serialised case"),
     "assumptions": ["math/big is correct", "verifref curve arithmetic is correct (validated against RFC 8032 constants and the affine addition law)",
